@@ -541,6 +541,13 @@ harnesses! {
     c13_gate_4 { prop: C13, feat: "c13", tier: quick, mode: full, unwind: 5, caps: "" } => |s| c13::gate(s, 64, 78);
     c13_gate_5 { prop: C13, feat: "c13", tier: quick, mode: full, unwind: 5, caps: "" } => |s| c13::gate(s, 78, 98);
     c13_gate_6 { prop: C13, feat: "c13", tier: quick, mode: full, unwind: 5, caps: "" } => |s| c13::gate(s, 98, 114);
+    c13_forms_ld { prop: C13, feat: "c13", tier: quick, mode: full, unwind: 5, caps: "" } => |s| c13::forms(s, 0);
+    c13_forms_ldd { prop: C13, feat: "c13", tier: quick, mode: full, unwind: 5, caps: "" } => |s| c13::forms(s, 1);
+    c13_forms_st { prop: C13, feat: "c13", tier: quick, mode: full, unwind: 5, caps: "" } => |s| c13::forms(s, 2);
+    c13_forms_std { prop: C13, feat: "c13", tier: quick, mode: full, unwind: 5, caps: "" } => |s| c13::forms(s, 3);
+    c13_forms_lpm { prop: C13, feat: "c13", tier: quick, mode: full, unwind: 5, caps: "" } => |s| c13::forms(s, 4);
+    c13_forms_elpm { prop: C13, feat: "c13", tier: quick, mode: full, unwind: 5, caps: "" } => |s| c13::forms(s, 5);
+    c13_forms_other { prop: C13, feat: "c13", tier: quick, mode: full, unwind: 5, caps: "" } => |s| c13::forms(s, 6);
     c10_tab_label { prop: C10, feat: "c10", tier: quick, mode: full, unwind: 5, caps: "clone=1,drop=1" } => |s| c10::bind_tables(s, 0, 2);
     c10_tab3_label { prop: C10, feat: "c10", tier: thorough, mode: full, unwind: 6, caps: "clone=1,drop=1" } => |s| c10::bind_tables(s, 0, 3);
     c10_tab_equ { prop: C10, feat: "c10", tier: quick, mode: full, unwind: 5, caps: "clone=1,drop=1" } => |s| c10::bind_tables(s, 1, 2);
